@@ -1,5 +1,5 @@
 ---- MODULE MC_Reward ----
 EXTENDS Reward
 ViewNoHist == <<phase, off, nbase, nev, rate, pubkey, known, status, dlg, bnd, power, rank, ranked, accV, accP,
-                baseD, baseB, curD, curB, AV, touched, sumV, sumVoted, sumPower, res, term, iscore>>
+                baseD, baseB, curD, curB, AV, touched, sumV, sumVoted, sumPower, res, term, iscore, newrate, claim, claimed>>
 ====
